@@ -43,7 +43,8 @@ META = {
     "level_note": "Encoder-side position numbers are not decided (no counting convention is stated for SMILES tokens). The "
                   "proof is modulo the modelled semantics of next()/enumerate/list.append and the role identification "
                   "printed in the evidence.",
-    "technique": "interprocedural taint / non-interference analysis + abstract interpretation with ghost counters and inferred relational loop invariants",
+    "technique": "interprocedural taint / non-interference analysis + abstract interpretation with ghost counters and inferred relational loop invariants + "
+                 "polynomial offset equation and must-dataflow over the encoder's recursive fragment printer",
 }
 
 
